@@ -67,6 +67,7 @@ func c02Leaves() []*Cmd {
 		{K: "let", Var: "x", E: bin("+", vr("y"), I(100))},
 		{K: "letc", Var: "y", Body: []*Cmd{txt("c"), pr(vr("x"))}},
 		{K: "call", Call: &CallSpec{Name: "lib.deep.show", Target: "lib.deep.show", AllData: true}},
+		{K: "call", Call: &CallSpec{Name: "deep.show", Target: "lib.deep.show"}},
 		{K: "call", Call: &CallSpec{Name: "deep.show", Target: "lib.deep.show", Params: []CallParam{{Key: "x", Value: vr("y")}}}},
 		{K: "call", Call: &CallSpec{Name: "deep.binder", Target: "lib.deep.binder", Params: []CallParam{{Key: "x", Value: vr("x")}}}},
 		{K: "call", Call: &CallSpec{Name: "deep.show", Target: "lib.deep.show", Data: vr("m"), Params: []CallParam{{Key: "y", Content: []*Cmd{txt("p"), pr(vr("x"))}}}}},
